@@ -247,8 +247,8 @@ theorem popEq_filter (deep : Nat) (f : Nat → Bool) (t : PTag) (rest : List PTa
       have hne' : p ≠ t := fun e => hne (e ▸ rfl)
       simp [popEqCost, popEqPops, hne, hne']
 
-theorem popTag_inv (nm : Names) (deep : Nat) (s : PState) (h : Inv nm s) :
-    Inv nm (popTag deep s).1 ∧ (popTag deep s).2 ≤ 2 ∧ (popTag deep s).1.stack = s.stack.tail := by
+theorem popTag_inv (nm : Names) (hE : nm.scElif = false) (deep : Nat) (s : PState) (h : Inv nm s) :
+    Inv nm (popTag nm deep s).1 ∧ (popTag nm deep s).2 ≤ 2 ∧ (popTag nm deep s).1.stack = s.stack.tail := by
   obtain ⟨stack, pre, sc, next⟩ := s
   obtain ⟨h1, h2⟩ := h
   simp only at h1 h2
@@ -258,12 +258,12 @@ theorem popTag_inv (nm : Names) (deep : Nat) (s : PState) (h : Inv nm s) :
     have a := popEq_filter deep nm.isPre t rest
     have b := popEq_filter deep nm.isSc t rest
     subst h1 h2
-    simp only [popTag, Inv, call, List.tail_cons]
+    simp only [popTag, Inv, call, List.tail_cons, hE, Bool.false_and, Bool.false_eq_true, ↓reduceIte]
     refine ⟨⟨a.2, b.2⟩, ?_, trivial⟩
     have := a.1; have := b.1; omega
 
-theorem popTo_inv (nm : Names) (deep name : Nat) (fuel : Nat) (s : PState) (h : Inv nm s) :
-    Inv nm (popTo deep name fuel s).1 ∧ (popTo deep name fuel s).2 ≤ 2 := by
+theorem popTo_inv (nm : Names) (hE : nm.scElif = false) (deep name : Nat) (fuel : Nat) (s : PState) (h : Inv nm s) :
+    Inv nm (popTo nm deep name fuel s).1 ∧ (popTo nm deep name fuel s).2 ≤ 2 := by
   induction fuel generalizing s with
   | zero => simp [popTo, h]
   | succ fuel ih =>
@@ -271,20 +271,20 @@ theorem popTo_inv (nm : Names) (deep name : Nat) (fuel : Nat) (s : PState) (h : 
     cases hs : s.stack with
     | nil => simp [h]
     | cons t rest =>
-      have hp := popTag_inv nm deep s h
+      have hp := popTag_inv nm hE deep s h
       simp only
       split
       · exact ⟨hp.1, hp.2.1⟩
-      · have hi := ih (popTag deep s).1 hp.1
+      · have hi := ih (popTag nm deep s).1 hp.1
         refine ⟨hi.1, ?_⟩
         have := hp.2.1; have := hi.2
         simp only; omega
 
-theorem popToTag_inv (nm : Names) (deep name : Nat) (s : PState) (h : Inv nm s) :
-    Inv nm (popToTag deep name s).1 ∧ (popToTag deep name s).2 ≤ 3 := by
+theorem popToTag_inv (nm : Names) (hE : nm.scElif = false) (deep name : Nat) (s : PState) (h : Inv nm s) :
+    Inv nm (popToTag nm deep name s).1 ∧ (popToTag nm deep name s).2 ≤ 3 := by
   unfold popToTag
   split
-  · have := popTo_inv nm deep name s.stack.length s h
+  · have := popTo_inv nm hE deep name s.stack.length s h
     simp only [call]; exact ⟨this.1, by omega⟩
   · simp [h, call]
 
@@ -299,33 +299,33 @@ theorem pushTag_inv (nm : Names) (h0 : nm.outermostOnly = false) (name : Nat) (s
 
 theorem endDataDepth_eq (s : PState) : endDataDepth s = 4 := by simp [endDataDepth, loop0_eq, call]
 
-theorem step_inv (nm : Names) (h0 : nm.outermostOnly = false) (deep : Nat) (s : PState) (e : Ev) (h : Inv nm s) :
+theorem step_inv (nm : Names) (h0 : nm.outermostOnly = false) (hE : nm.scElif = false) (deep : Nat) (s : PState) (e : Ev) (h : Inv nm s) :
     Inv nm (step nm deep s e).1 ∧ (step nm deep s e).2 ≤ 11 := by
   cases e with
   | text => simp [step, h, cTokenizer, call]
   | close name =>
-    have := popToTag_inv nm deep name s h
+    have := popToTag_inv nm hE deep name s h
     simp only [step, endDataDepth_eq, cTokenizer, call]
     exact ⟨this.1, by omega⟩
   | «open» name void =>
     have hp := pushTag_inv nm h0 name s h
-    have := popToTag_inv nm deep name (pushTag nm name s) hp
+    have := popToTag_inv nm hE deep name (pushTag nm name s) hp
     simp only [step, endDataDepth_eq, cTokenizer, cTagInit, call]
     split
     · exact ⟨this.1, by omega⟩
     · exact ⟨hp, by omega⟩
 
-theorem run_inv (nm : Names) (h0 : nm.outermostOnly = false) (deep : Nat) (evs : List Ev) (s : PState) (h : Inv nm s) :
+theorem run_inv (nm : Names) (h0 : nm.outermostOnly = false) (hE : nm.scElif = false) (deep : Nat) (evs : List Ev) (s : PState) (h : Inv nm s) :
     Inv nm (run nm deep s evs).1 ∧ (run nm deep s evs).2 ≤ 11 := by
   induction evs generalizing s with
   | nil => simp [run, h]
   | cons e es ih =>
-    have h1 := step_inv nm h0 deep s e h
+    have h1 := step_inv nm h0 hE deep s e h
     have h2 := ih (step nm deep s e).1 h1.1
     simp only [run]
     exact ⟨h2.1, by have := h1.2; have := h2.2; omega⟩
 
-theorem popAll_le (nm : Names) (deep : Nat) (fuel : Nat) (s : PState) (h : Inv nm s) : popAll deep fuel s ≤ 2 := by
+theorem popAll_le (nm : Names) (hE : nm.scElif = false) (deep : Nat) (fuel : Nat) (s : PState) (h : Inv nm s) : popAll nm deep fuel s ≤ 2 := by
   induction fuel generalizing s with
   | zero => simp [popAll]
   | succ fuel ih =>
@@ -333,17 +333,48 @@ theorem popAll_le (nm : Names) (deep : Nat) (fuel : Nat) (s : PState) (h : Inv n
     cases hs : s.stack with
     | nil => simp
     | cons t rest =>
-      have hp := popTag_inv nm deep s h
-      have := ih (popTag deep s).1 hp.1
+      have hp := popTag_inv nm hE deep s h
+      have := ih (popTag nm deep s).1 hp.1
       have := hp.2.1
       simp only; omega
 
-theorem feedDepth_le (nm : Names) (h0 : nm.outermostOnly = false) (deep : Nat) (evs : List Ev) : feedDepth nm deep evs ≤ 12 := by
+theorem feedDepth_le (nm : Names) (h0 : nm.outermostOnly = false) (hE : nm.scElif = false) (deep : Nat) (evs : List Ev) : feedDepth nm deep evs ≤ 12 := by
   have hI : Inv nm initState := by simp [Inv, initState]
-  have hr := run_inv nm h0 deep evs initState hI
-  have hp := popAll_le nm deep (run nm deep initState evs).1.stack.length (run nm deep initState evs).1 hr.1
+  have hr := run_inv nm h0 hE deep evs initState hI
+  have hp := popAll_le nm hE deep (run nm deep initState evs).1.stack.length (run nm deep initState evs).1 hr.1
   simp only [feedDepth, endDataDepth_eq, call]
   have := hr.2
   omega
+
+/-! ### after the parse: nothing is left on the parser's stacks -/
+
+theorem closeAll_spec (nm : Names) (hE : nm.scElif = false) (deep : Nat) (fuel : Nat) (s : PState) (h : Inv nm s)
+    (hf : s.stack.length ≤ fuel) :
+    Inv nm (closeAll nm deep fuel s) ∧ (closeAll nm deep fuel s).stack = [] := by
+  induction fuel generalizing s with
+  | zero =>
+    have : s.stack = [] := List.eq_nil_of_length_eq_zero (by omega)
+    simp [closeAll, h, this]
+  | succ fuel ih =>
+    unfold closeAll
+    cases hs : s.stack with
+    | nil => simp [h, hs]
+    | cons t rest =>
+      have hp := popTag_inv nm hE deep s h
+      simp only
+      apply ih _ hp.1
+      rw [hp.2.2, hs]; simp only [List.tail_cons]
+      rw [hs] at hf; simp only [List.length_cons] at hf; omega
+
+/-- After `_feed`, for every event sequence and every pair of tables (disjoint or not): the tag stack is back to the
+    document object and both side stacks are empty — no parser attribute references a tree object. -/
+theorem feedState_clean (nm : Names) (h0 : nm.outermostOnly = false) (hE : nm.scElif = false) (deep : Nat) (evs : List Ev) :
+    leftover (feedState nm deep evs) = [] := by
+  have hI : Inv nm initState := by simp [Inv, initState]
+  have hr := run_inv nm h0 hE deep evs initState hI
+  have hc := closeAll_spec nm hE deep (run nm deep initState evs).1.stack.length (run nm deep initState evs).1 hr.1 (Nat.le_refl _)
+  obtain ⟨⟨h1, h2⟩, h3⟩ := hc
+  simp only [feedState, leftover]
+  rw [h1, h2, h3]; simp
 
 end BS.Depth
